@@ -71,6 +71,7 @@ DOC_FEATURES = {
     "mixed-encoding-pieces": "piece table with an 8-bit piece followed by a 16-bit piece (twin: one 16-bit piece)",
     "picture-in-data-stream": "inline PNG picture stored in the Data stream, where Word puts it (twin: stored in the WordDocument stream, where LibreOffice puts it)",
     "jpeg-picture": "inline JPEG picture (twin: PNG picture)",
+    "headings-only-with-picture": "the main text is one 'Chapter ...' line and a picture, nothing else (a title page) (twin: first word 'Section')",
     "cp1252-summary": "SummaryInformation strings in code page 1252 with non-ASCII characters (twin: code page 65001)",
 }
 
@@ -705,7 +706,11 @@ def build_doc(seed: int, feature: str | None = None, twin: bool = False):
             txt += " 東京 " + words(cls, 1, 1, heading)
         return txt + "\r"
 
-    if feature == "short-document":
+    if feature == "headings-only-with-picture":
+        # (that heading lines are not part of the full text is the chapter-prefixed-paragraph mechanism; here the line is unclaimed
+        # text, what is judged is that the accessors work and that the document has a unit)
+        main.append(("Section " if twin else "Chapter ") + " ".join(exp.ignore(tk.new("h")) for _ in range(8)) + "\r")
+    elif feature == "short-document":
         t = exp.text(tk.new("b"), 0)
         main.append(t + "\r" if not twin else t + " " + " ".join(exp.text(tk.new("b"), 0) for _ in range(7)) + "\r")
     else:
@@ -750,10 +755,10 @@ def build_doc(seed: int, feature: str | None = None, twin: bool = False):
             main.append(w + " " + words("h", 1, 2, heading=True) + "\r")
             main.append(para())
     hdd = []
-    if feature != "short-document" and rng.random() < 0.5:
+    if feature not in ("short-document", "headings-only-with-picture") and rng.random() < 0.5:
         hdd = [words("f", 1, 2, rec=exp.out) + "\r" for _ in range(rng.randint(1, 3))]
     txbx = []
-    if feature != "short-document" and rng.random() < 0.25:
+    if feature not in ("short-document", "headings-only-with-picture") and rng.random() < 0.25:
         txbx = [words("x", 1, 2, rec=exp.ignore) + "\r"]
 
     # pictures: a picture character (\x01) in its own paragraph; the picture data (PICF + inline shape + BSE + blip) is kept where
@@ -766,6 +771,8 @@ def build_doc(seed: int, feature: str | None = None, twin: bool = False):
         plan = ["png"]
     elif feature == "jpeg-picture":
         plan = ["jpeg" if not twin else "png"]
+    elif feature == "headings-only-with-picture":
+        plan = ["png"]
     else:
         plan = ["png"] * prng.choice([0, 0, 1, 1, 2])
     pic_blobs: list[bytes] = []
@@ -777,7 +784,7 @@ def build_doc(seed: int, feature: str | None = None, twin: bool = False):
         picf += struct.pack("<hhHH", b["w"] * 15, b["h"] * 15, 1000, 1000) + b"\0" * 8 + b"\0\0" + b"\0" * 16 + b"\0" * 4 + struct.pack("<h", 0)
         assert len(picf) == 68
         pic_blobs.append(picf + art)
-        main.insert(prng.randrange(1, len(main)), "\x01\r")
+        main.insert(prng.randrange(1, len(main)) if len(main) > 1 else 1, "\x01\r")
         exp.images.append({"sha": b["sha"], "ctype": b["ctype"], "w": b["w"], "h": b["h"], "unit": None})
     pics_in_data = risky == "picture-in-data-stream"
 
